@@ -1,5 +1,6 @@
 // C09: Circuit::hpwl / pin-offset transforms against the DEF reference, and IncrNetModel against a
 // from-scratch 1-D HPWL over arbitrary update histories and cell subsets.
+#include <climits>
 #include "circ.hpp"
 #include "place_detailed/incr_net_model.hpp"
 
@@ -35,7 +36,7 @@ static Circuit randomPlacedCircuit(Rng &rng, std::string &desc) {
     // high-fanout nets in which a few cells own many pins
     int big = (int)rng.range(1, 3);
     for (int k = 0; k < big; ++k) {
-      int deg = (int)rng.range(20, 80);
+      int deg = rng.chance(0.4) ? (int)rng.range(100, 220) : (int)rng.range(20, 99);
       std::vector<int> cells, xo, yo, pool;
       for (int j = 0; j < 3; ++j) pool.push_back((int)rng.range(0, c.nbCells() - 1));
       for (int j = 0; j < deg; ++j) {
@@ -121,7 +122,7 @@ static void incrCase(Rng &rng, CaseResult &r) {
     subset.resize((size_t)rng.range(0, (long long)subset.size()));
   } else if (mode == 2) subset.clear();
   else if (mode == 3) for (int i = (int)subset.size() - 1; i > 0; --i) std::swap(subset[i], subset[rng.range(0, i)]);
-  int nUpd = rng.chance(0.05) ? (int)rng.range(31, 300) : (int)rng.range(0, 30);
+  int nUpd = rng.chance(0.15) ? (int)rng.range(31, 300) : (int)rng.range(0, 30);
   if (r.needSample()) r.sample = vf::J::obj().kv("axis", xAxis ? "x" : "y").kv("mode", mode).kraw("subset", vf::jarr(subset)).kv("updates", nUpd).kraw("circuit", circuitJson(c)).str();
   if (r.dumpOnly) return;
   IncrNetModel m = mode == 0 ? (xAxis ? IncrNetModel::xTopology(c) : IncrNetModel::yTopology(c)) : (xAxis ? IncrNetModel::xTopology(c, subset) : IncrNetModel::yTopology(c, subset));
@@ -134,6 +135,12 @@ static void incrCase(Rng &rng, CaseResult &r) {
   for (int k = 0; k < nUpd && !subset.empty() && r.viol.empty(); ++k) {
     int i = (int)rng.range(0, (long long)subset.size() - 1);
     int np = rng.chance(0.1) ? pos[i] : (rng.chance(0.2) ? (int)rng.range(-100000, 100000) : pos[i] + (int)rng.range(-50, 50));
+    if (rng.chance(0.15)) {
+      // jump past everything else: just beyond the smallest or the largest position of the other cells
+      int lo = INT_MAX, hi = INT_MIN;
+      for (size_t j = 0; j < pos.size(); ++j) if ((int)j != i) { lo = std::min(lo, pos[j]); hi = std::max(hi, pos[j]); }
+      if (lo <= hi) np = rng.chance(0.5) ? lo - (int)rng.range(1, 2000) : hi + (int)rng.range(1, 2000);
+    }
     m.updateCellPos(i, np);
     pos[i] = np;
     ++done;
